@@ -373,4 +373,222 @@ theorem refines (s : State) (c : Call) (e : Env) (hi : ApiInv s) (he : EnvOk s c
   | smixRelease num => exact refines_smixRelease s e num hi he hd
   | endSmix  => exact refines_endSmix s e  hi he hd
 
+/-! ## The invariant is preserved by every call (also in the deviating cells) -/
+
+@[simp] theorem length_setAt (l : List Int) (i v : Int) : (setAt l i v).length = l.length := by simp [setAt]
+@[simp] theorem length_startMute (c : Int) (x : List Int) : (startMute c x).length = 64 := by simp [startMute]
+
+macro "inv_auto" : tactic => `(tactic| (
+  unfold ApiInv at *
+  simp [step, setPlayer, startPlayer, loadModule, release, endPlayer, smixPlay, EnvOk, State.init] at *
+  repeat' split
+  all_goals (simp_all <;> try omega)))
+
+theorem inv_recreate (s : State) (e : Env)  (hi : ApiInv s) (he : EnvOk s .recreate e = true) :
+    ApiInv (step s .recreate e).state := by
+  inv_auto
+
+theorem inv_version (s : State) (e : Env)  (hi : ApiInv s) (he : EnvOk s .version e = true) :
+    ApiInv (step s .version e).state := by
+  inv_auto
+
+theorem inv_getFormatList (s : State) (e : Env)  (hi : ApiInv s) (he : EnvOk s .getFormatList e = true) :
+    ApiInv (step s .getFormatList e).state := by
+  inv_auto
+
+theorem inv_syserrno (s : State) (e : Env)  (hi : ApiInv s) (he : EnvOk s .syserrno e = true) :
+    ApiInv (step s .syserrno e).state := by
+  inv_auto
+
+theorem inv_testModule (s : State) (e : Env) (k : LoadKind) (hi : ApiInv s) (he : EnvOk s (.testModule k) e = true) :
+    ApiInv (step s (.testModule k) e).state := by
+  inv_auto
+
+theorem inv_load (s : State) (e : Env) (k : LoadKind) (size : Int) (hi : ApiInv s) (he : EnvOk s (.load k size) e = true) :
+    ApiInv (step s (.load k size) e).state := by
+  inv_auto
+
+theorem inv_release (s : State) (e : Env)  (hi : ApiInv s) (he : EnvOk s .release e = true) :
+    ApiInv (step s .release e).state := by
+  inv_auto
+
+theorem inv_scan (s : State) (e : Env)  (hi : ApiInv s) (he : EnvOk s .scan e = true) :
+    ApiInv (step s .scan e).state := by
+  inv_auto
+
+theorem inv_getModuleInfo (s : State) (e : Env)  (hi : ApiInv s) (he : EnvOk s .getModuleInfo e = true) :
+    ApiInv (step s .getModuleInfo e).state := by
+  inv_auto
+
+theorem inv_getFrameInfo (s : State) (e : Env)  (hi : ApiInv s) (he : EnvOk s .getFrameInfo e = true) :
+    ApiInv (step s .getFrameInfo e).state := by
+  inv_auto
+
+theorem inv_start (s : State) (e : Env) (rate : Int) (format : Int) (hi : ApiInv s) (he : EnvOk s (.start rate format) e = true) :
+    ApiInv (step s (.start rate format) e).state := by
+  inv_auto
+
+theorem inv_playFrame (s : State) (e : Env)  (hi : ApiInv s) (he : EnvOk s .playFrame e = true) :
+    ApiInv (step s .playFrame e).state := by
+  inv_auto
+
+theorem inv_playBuffer (s : State) (e : Env) (null : Bool) (size : Int) (loop : Int) (hi : ApiInv s) (he : EnvOk s (.playBuffer null size loop) e = true) :
+    ApiInv (step s (.playBuffer null size loop) e).state := by
+  inv_auto
+
+theorem inv_endPlayer (s : State) (e : Env)  (hi : ApiInv s) (he : EnvOk s .endPlayer e = true) :
+    ApiInv (step s .endPlayer e).state := by
+  inv_auto
+
+theorem inv_nextPos (s : State) (e : Env)  (hi : ApiInv s) (he : EnvOk s .nextPos e = true) :
+    ApiInv (step s .nextPos e).state := by
+  inv_auto
+
+theorem inv_prevPos (s : State) (e : Env)  (hi : ApiInv s) (he : EnvOk s .prevPos e = true) :
+    ApiInv (step s .prevPos e).state := by
+  inv_auto
+
+theorem inv_setPos (s : State) (e : Env) (pos : Int) (hi : ApiInv s) (he : EnvOk s (.setPos pos) e = true) :
+    ApiInv (step s (.setPos pos) e).state := by
+  inv_auto
+
+theorem inv_setRow (s : State) (e : Env) (row : Int) (hi : ApiInv s) (he : EnvOk s (.setRow row) e = true) :
+    ApiInv (step s (.setRow row) e).state := by
+  inv_auto
+
+theorem inv_setTempo (s : State) (e : Env) (positive : Bool) (hi : ApiInv s) (he : EnvOk s (.setTempo positive) e = true) :
+    ApiInv (step s (.setTempo positive) e).state := by
+  inv_auto
+
+theorem inv_stop (s : State) (e : Env)  (hi : ApiInv s) (he : EnvOk s .stop e = true) :
+    ApiInv (step s .stop e).state := by
+  inv_auto
+
+theorem inv_restart (s : State) (e : Env)  (hi : ApiInv s) (he : EnvOk s .restart e = true) :
+    ApiInv (step s .restart e).state := by
+  inv_auto
+
+theorem inv_seekTime (s : State) (e : Env) (t : Int) (hi : ApiInv s) (he : EnvOk s (.seekTime t) e = true) :
+    ApiInv (step s (.seekTime t) e).state := by
+  inv_auto
+
+theorem inv_chanMute (s : State) (e : Env) (chn : Int) (status : Int) (hi : ApiInv s) (he : EnvOk s (.chanMute chn status) e = true) :
+    ApiInv (step s (.chanMute chn status) e).state := by
+  inv_auto
+
+theorem inv_chanVol (s : State) (e : Env) (chn : Int) (vol : Int) (hi : ApiInv s) (he : EnvOk s (.chanVol chn vol) e = true) :
+    ApiInv (step s (.chanVol chn vol) e).state := by
+  inv_auto
+
+theorem inv_inject (s : State) (e : Env) (chn : Int) (hi : ApiInv s) (he : EnvOk s (.inject chn) e = true) :
+    ApiInv (step s (.inject chn) e).state := by
+  inv_auto
+
+theorem inv_getPlayer (s : State) (e : Env) (parm : Int) (hi : ApiInv s) (he : EnvOk s (.getPlayer parm) e = true) :
+    ApiInv (step s (.getPlayer parm) e).state := by
+  inv_auto
+
+theorem inv_setInsPath (s : State) (e : Env) (null : Bool) (hi : ApiInv s) (he : EnvOk s (.setInsPath null) e = true) :
+    ApiInv (step s (.setInsPath null) e).state := by
+  inv_auto
+
+theorem inv_startSmix (s : State) (e : Env) (chn : Int) (smp : Int) (hi : ApiInv s) (he : EnvOk s (.startSmix chn smp) e = true) :
+    ApiInv (step s (.startSmix chn smp) e).state := by
+  inv_auto
+
+theorem inv_smixPlayIns (s : State) (e : Env) (ins : Int) (note : Int) (vol : Int) (chn : Int) (hi : ApiInv s) (he : EnvOk s (.smixPlayIns ins note vol chn) e = true) :
+    ApiInv (step s (.smixPlayIns ins note vol chn) e).state := by
+  inv_auto
+
+theorem inv_smixPlaySmp (s : State) (e : Env) (ins : Int) (note : Int) (vol : Int) (chn : Int) (hi : ApiInv s) (he : EnvOk s (.smixPlaySmp ins note vol chn) e = true) :
+    ApiInv (step s (.smixPlaySmp ins note vol chn) e).state := by
+  inv_auto
+
+theorem inv_smixPan (s : State) (e : Env) (chn : Int) (pan : Int) (hi : ApiInv s) (he : EnvOk s (.smixPan chn pan) e = true) :
+    ApiInv (step s (.smixPan chn pan) e).state := by
+  inv_auto
+
+theorem inv_smixLoad (s : State) (e : Env) (num : Int) (file : Int) (hi : ApiInv s) (he : EnvOk s (.smixLoad num file) e = true) :
+    ApiInv (step s (.smixLoad num file) e).state := by
+  inv_auto
+
+theorem inv_smixRelease (s : State) (e : Env) (num : Int) (hi : ApiInv s) (he : EnvOk s (.smixRelease num) e = true) :
+    ApiInv (step s (.smixRelease num) e).state := by
+  inv_auto
+
+theorem inv_endSmix (s : State) (e : Env)  (hi : ApiInv s) (he : EnvOk s .endSmix e = true) :
+    ApiInv (step s .endSmix e).state := by
+  inv_auto
+
+theorem inv_setPlayer (s : State) (e : Env) (parm val : Int) (hi : ApiInv s) :
+    ApiInv (step s (.setPlayer parm val) e).state := by
+  by_cases h0 : parm = 0
+  · subst h0; inv_auto
+  by_cases h1 : parm = 1
+  · subst h1; inv_auto
+  by_cases h2 : parm = 2
+  · subst h2; inv_auto
+  by_cases h3 : parm = 3
+  · subst h3; inv_auto
+  by_cases h4 : parm = 4
+  · subst h4; inv_auto
+  by_cases h5 : parm = 5
+  · subst h5; inv_auto
+  by_cases h6 : parm = 6
+  · subst h6; inv_auto
+  by_cases h7 : parm = 7
+  · subst h7; inv_auto
+  by_cases h8 : parm = 8
+  · subst h8; inv_auto
+  by_cases h9 : parm = 9
+  · subst h9; inv_auto
+  by_cases h10 : parm = 10
+  · subst h10; inv_auto
+  by_cases h11 : parm = 11
+  · subst h11; inv_auto
+  by_cases h12 : parm = 12
+  · subst h12; inv_auto
+  by_cases h13 : parm = 13
+  · subst h13; inv_auto
+  inv_auto
+
+theorem inv_step (s : State) (c : Call) (e : Env) (hi : ApiInv s) (he : EnvOk s c e = true) :
+    ApiInv (step s c e).state := by
+  cases c with
+  | setPlayer p v => exact inv_setPlayer s e p v hi
+  | recreate  => exact inv_recreate s e  hi he
+  | version  => exact inv_version s e  hi he
+  | getFormatList  => exact inv_getFormatList s e  hi he
+  | syserrno  => exact inv_syserrno s e  hi he
+  | testModule k => exact inv_testModule s e k hi he
+  | load k size => exact inv_load s e k size hi he
+  | release  => exact inv_release s e  hi he
+  | scan  => exact inv_scan s e  hi he
+  | getModuleInfo  => exact inv_getModuleInfo s e  hi he
+  | getFrameInfo  => exact inv_getFrameInfo s e  hi he
+  | start rate format => exact inv_start s e rate format hi he
+  | playFrame  => exact inv_playFrame s e  hi he
+  | playBuffer null size loop => exact inv_playBuffer s e null size loop hi he
+  | endPlayer  => exact inv_endPlayer s e  hi he
+  | nextPos  => exact inv_nextPos s e  hi he
+  | prevPos  => exact inv_prevPos s e  hi he
+  | setPos pos => exact inv_setPos s e pos hi he
+  | setRow row => exact inv_setRow s e row hi he
+  | setTempo positive => exact inv_setTempo s e positive hi he
+  | stop  => exact inv_stop s e  hi he
+  | restart  => exact inv_restart s e  hi he
+  | seekTime t => exact inv_seekTime s e t hi he
+  | chanMute chn status => exact inv_chanMute s e chn status hi he
+  | chanVol chn vol => exact inv_chanVol s e chn vol hi he
+  | inject chn => exact inv_inject s e chn hi he
+  | getPlayer parm => exact inv_getPlayer s e parm hi he
+  | setInsPath null => exact inv_setInsPath s e null hi he
+  | startSmix chn smp => exact inv_startSmix s e chn smp hi he
+  | smixPlayIns ins note vol chn => exact inv_smixPlayIns s e ins note vol chn hi he
+  | smixPlaySmp ins note vol chn => exact inv_smixPlaySmp s e ins note vol chn hi he
+  | smixPan chn pan => exact inv_smixPan s e chn pan hi he
+  | smixLoad num file => exact inv_smixLoad s e num file hi he
+  | smixRelease num => exact inv_smixRelease s e num hi he
+  | endSmix  => exact inv_endSmix s e  hi he
+
 end Xmp.Api
